@@ -3,8 +3,44 @@
 GATE_DECIDERS = [[0, 0], [2, 8], [3, 8], [4, 16], [5, 16], [6, 0], [7, 0]]
 
 
+def gen_mixed(rng, size):
+    """A buffer fed with a mix of batches and single parts whose exits are blocked for a while and then released: several stored
+    items of different sizes leave in one pass (C05/C17: level accounting per item, FIFO, batches counted by their parts)."""
+    big = size != 'small'
+    ents = []
+    na = rng.choice([2, 3, 3])
+    ents.append(dict(kind='source', cycle=rng.choice([4, 8, 8]), budget=rng.choice([None, 4, 6]), gen_value=8 * rng.choice([0, 1]), gen_quality=8, gen_batch=na))   # 1
+    ents.append(dict(kind='source', cycle=rng.choice([4, 8, 12]), budget=rng.choice([None, 5, 8]), gen_value=8, gen_quality=4, gen_batch=0))                       # 2
+    ents.append(dict(kind='buffer', up=[1, 2], min_delay=rng.choice([0, 0, 4, 8]), capacity=rng.choice([None, None, 6, 8, 12])))                                   # 3
+    outs = []
+    nxt = 4
+    for _ in range(rng.choice([1, 2, 2])):
+        if rng.random() < 0.5:
+            ents.append(dict(kind='sink', cycle=0, collect=True, up=[3]))
+            outs.append(nxt)
+            nxt += 1
+        else:
+            ents.append(dict(kind=rng.choice(['handler', 'processor']), cycle=rng.choice([0, 4, 8]), up=[3]))
+            ents.append(dict(kind='sink', cycle=0, collect=rng.random() < 0.5, up=[nxt]))
+            outs.append(nxt)
+            nxt += 2
+    uops, ext = [], [['init']]
+    for d in outs:
+        t0 = rng.choice([0, 0, 8, 12])
+        uops.append([['block', d, 1]])
+        ext.append(['at', t0, len(uops) - 1, rng.choice([32, 184])])
+        uops.append([['block', d, 0]])
+        ext.append(['at', t0 + rng.choice([16, 24, 32, 40]), len(uops) - 1, rng.choice([32, 184, 152])])
+    nsteps = rng.randint(30, 80) if not big else rng.randint(80, 200)
+    ext += [['step']] * nsteps
+    ext.append(['run', rng.choice([40, 80]) if not big else rng.choice([160, 320])])
+    return dict(seed=rng.randint(0, 1000), mod=rng.choice([1, 3, 3, 1 << 20]), entities=ents, pools=[], uops=uops, ext=ext, focus='mixed')
+
+
 def gen(rng, size='small', focus=None):
-    focus = focus or rng.choice(['plain', 'plain', 'faults', 'resources', 'buffers', 'batches', 'groups', 'gates', 'maint', 'rewire'])
+    focus = focus or rng.choice(['plain', 'plain', 'faults', 'resources', 'buffers', 'batches', 'groups', 'gates', 'maint', 'rewire', 'mixed'])
+    if focus == 'mixed':
+        return gen_mixed(rng, size)
     ents = []
 
     def add(e):
